@@ -1153,6 +1153,8 @@ var evalCorpus = []string{
 	"T | join kind=inner (U) on k | sort by a | take 2 | where b > 0", "T | join kind=leftouter (U) on k | top 2 by a desc | where a > 1",
 	"T | join kind=inner (U) on k | top 3 by b | where k > 1 | count", "T | join (U) on k | sort by a desc, b | take 1 | where a < 2",
 	"T | join kind=inner (U) on k | sort by a | take 2 | extend n1 = a + 1 | where n1 > 2", "T | join kind=inner (U) on k | top 2 by a | project a | sort by a desc",
+	"T | as x1 | where a > 0 | as x1 | count", "T | where a > 0 | as x1 | join (U | as x1) on k", "T | as __subquery1 | where a > 0 | count",
+	"T | project k | as x1 | join (x1) on k", "T | project k | as x1 | join (x1 | where k > 0) on k | count", "T | summarize by a | project k = 1 | as x1 | join (x1) on k", "T | as x1 | join (x1) on k", "T | as x1 | join (x1 | where b > 0) on k | count", "T | project k, a | as x1 | join kind=innerunique (x1) on k", "T | as x1 | join kind=inner (x1) on k | summarize count() by k",
 	"let n = 3; T | sort by a, b | take n | take 1", "let n = 3; T | top n by a | take 2", "let n = 2; let m = n; T | sort by b | take 3 | take m | take 1",
 	"let n = 3; T | sort by a | take n | take 2 | count", "let n = 1; T | sort by a | take 2 | take n",
 	"T | sort by a desc | where k > 0 | take 2 | summarize n1 = sum(a)", "T | sort by a | extend n1 = a * 2 | take 2 | summarize n2 = min(a), n3 = max(n1) by k",
@@ -1190,7 +1192,7 @@ func genEvalCases(tier string, emit func(op string, fields ...string)) {
 	seed := 0
 	for _, s := range evalCorpus {
 		reps := 3
-		if strings.HasPrefix(s, "let $") {
+		if strings.HasPrefix(s, "let $") || strings.Contains(s, "| as x1 | where a > 0 | as x1") || strings.Contains(s, "(U | as x1)") {
 			reps = 12 // known finding K5 shows only on databases with a NULL join key
 		}
 		for k := 0; k < reps; k++ {
